@@ -1000,3 +1000,40 @@ func (w *World) StatsSnapshot() Stats {
 	defer w.mu.Unlock()
 	return w.Stats
 }
+
+// ObservedSrc returns the source address a peer at dst observes for datagrams sent from s
+// (after the host's NAT, if any). ok=false when a NAT is in between and no mapping exists yet.
+func (w *World) ObservedSrc(s *Sock, dst netip.AddrPort) (netip.AddrPort, bool) {
+	w.mu.Lock()
+	defer w.mu.Unlock()
+	src := s.srcFor(dst)
+	if s.h.NAT == nil {
+		return src, true
+	}
+	return s.h.NAT.peek(src, dst)
+}
+
+// RouteOf returns the open socket a datagram src->dst would be handed to right now (nil if none).
+func (w *World) RouteOf(src, dst netip.AddrPort) *Sock {
+	w.mu.Lock()
+	defer w.mu.Unlock()
+	st := w.Stats
+	res, s := w.routeLocked(&Datagram{Src: src, Dst: dst})
+	w.Stats = st
+	if res != Delivered {
+		return nil
+	}
+	return s
+}
+
+// SockByPort returns the open socket of host h bound to the given port (any address), or nil.
+func (h *Host) SockByPort(port uint16) *Sock {
+	h.w.mu.Lock()
+	defer h.w.mu.Unlock()
+	for ap, s := range h.bound {
+		if ap.Port() == port && !s.closed && s.Tag != "service" {
+			return s
+		}
+	}
+	return nil
+}
